@@ -5,12 +5,14 @@ NOTES = ("Every check: TLC model-checks the implementation-level TLA+ module (sp
          "recorded trace against the abstract module; only that validation produces VIOLATION verdicts. See DESIGN.md.")
 NOT_APPLICABLE = {}
 SEQ_NOTE = ("trusted: TLC, the Go driver (records API results verbatim, no oracle), the JSON trace encoding; "
-            "bounds stated in evidence; element type int")
+            "bounds stated in evidence; element type int plus the further element types named in the evidence (strings, floats with "
+            "negative zero, zero-size, uncomparable, pointers) mapped to ids in the trace")
 CHECKS = {
     "C16": dict(text="TLC enumerates every interleaving of Enqueue/Dequeue/Peek (Push/Pop/Peek) over 3-4 values up to length 4-6 "
                      "on Queue.tla and checks FIFO/LIFO refinement; a transition tour executes every model edge on the real "
                      "containers and TLC validates every recorded step (result, Len, Peek) against the abstract sequence; "
-                     "seeded long interleavings extend beyond the bounds.",
+                     "seeded long interleavings, saw-tooth fills to 1100-5000, fill/drain/probe-empty/reuse cycles at every fill count, and "
+                     "zero-size / 200-byte / string elements extend beyond the bounds.",
                 ref="7-C16", note=SEQ_NOTE, technique="TLA+ model + TLC state-graph tour replay + TLC trace validation"),
 }
 TECH = "TLA+ model checked by TLC + TLC state-graph tour replayed into the real code + TLC trace validation against the abstract module"
@@ -20,35 +22,42 @@ CHECKS.update({
                      "Remove(absent) no-op over every history within bounds (every tree shape); the tour runs every model transition on the real "
                      "tree (int/string/struct elements) and TLC validates every recorded step (three traversals consistent with one tree, in-order = "
                      "multiset, Len, Contains over the universe, Remove result, String, clone independence) against the multiset model; generated "
-                     "histories to n=2047 extend the bounds.", ref="7-C01", note=SEQ_NOTE, technique=TECH),
+                     "histories to n=2047, clones of trees up to 20000 nodes, Fibonacci-shaped (sparsest) trees, many copies of few values, "
+                     "three sharing trees and look-up/change/look-up triples extend the bounds.", ref="7-C01", note=SEQ_NOTE, technique=TECH),
     "C02": dict(text="Same model and traces as C01; decided by the balance clause: TLC reconstructs from the recorded pre-/in-order a binary tree "
                      "and requires it to be AVL-balanced after every Add/Remove; model-level invariant InvBalanced (cached heights = real heights, "
                      "|bf|<=1) over every reachable shape; sorted/zig-zag/organ-pipe/delete-heavy generated histories to n=2047.",
                 ref="7-C02", note=SEQ_NOTE, technique=TECH),
     "C07": dict(text="Sorted.tla (sort.Search bisection transcribed, splice insert/remove) checked by TLC for ascending, descending and a weak key-only "
                      "order; tour over every initial slice and call incl. absent values and out-of-range positions; validator checks sortedness, exact "
-                     "multiset steps, index results for total orders, panics, input-slice non-aliasing.", ref="7-C07", note=SEQ_NOTE, technique=TECH),
+                     "multiset steps, index results for total orders, panics, input-slice non-aliasing; plus structured and large (to 3000) NewSorted "
+                     "inputs, saw-tooth growth, look-up/change/look-up triples.", ref="7-C07", note=SEQ_NOTE, technique=TECH),
     "C08": dict(text="Array2D.tla models the backing slice, index function, row/span windows, Fill and Clone for every shape 0..4 x 0..4; TLC checks "
                      "refinement to a grid of independent cells (index injectivity); the tour executes every call with every coordinate in/out of "
-                     "bounds, every rectangle, every jagged input; validator checks the whole grid, held window, clone, panics, String after each call.",
+                     "bounds, every rectangle, every jagged input; validator checks the whole grid, held window, clone, panics, String after each call; "
+                     "plus 64-bit extreme coordinates, large / lopsided shapes, string / float / slice / pointer elements.",
                 ref="7-C08", note=SEQ_NOTE, technique=TECH),
     "C11": dict(text="Bimap.tla transcribes Add's two stale-entry deletions over two bimap values; TLC checks forward/reverse inverse and refinement "
                      "to a pair set over all pairs of partial bijections; tour executes every edge; validator checks the full lookup tables in both "
-                     "directions, Len, Range, clone independence after every call.", ref="7-C11", note=SEQ_NOTE, technique=TECH),
+                     "directions, Len, Range, clone independence after every call; plus bimaps of 129-1100 pairs, single look-ups between changes, "
+                     "Range callbacks that change the bimap.", ref="7-C11", note=SEQ_NOTE, technique=TECH),
     "C12": dict(text="Splice.tla transcribes Insert/InsertSlice/Remove/RemoveSlice/Fill/Reverse/Grow over a Go slice heap model (append in place vs "
                      "reallocating, memmove copy, doubling fill); TLC proves transcription = splice definition for every length, spare capacity, "
                      "position, count in bounds and enumerates the cells; every cell and seeded larger cases run on the real helpers and TLC validates "
-                     "contents and non-aliasing of Concat/Clone. Bounded-exhaustive input space, no history dimension.",
+                     "contents and non-aliasing of Concat/Clone (neighbouring views included); short contents in large backing arrays; float / slice / "
+                     "struct / string / odd-sized elements. Bounded-exhaustive input space, no history dimension.",
                 ref="7-C12", note=SEQ_NOTE, technique=TECH_CASES),
     "C13": dict(text="Partition.tla transcribes the chunk/window/pair index arithmetic; TLC checks it against the statement's characterisation for every "
                      "(n,size) and enumerates the cells; real results and callback sequences validated by TLC. Bounded-exhaustive input space.",
                 ref="7-C13", note=SEQ_NOTE, technique=TECH_CASES),
     "C14": dict(text="FuncDefs.tla holds the reference definitions; Functional.tla enumerates every (helper, slice over {1,2,3}, callback parameter) cell "
                      "and checks the loop transcriptions of Fold/FoldReverse/GroupBy against them; every cell runs on the real helpers; TLC validates "
-                     "result, input unmodified, and freshness probes (mutate result / mutate input).", ref="7-C14", note=SEQ_NOTE, technique=TECH_CASES),
+                     "result, input unmodified, and freshness probes (mutate result / mutate input); plus byte/string elements, nil inputs, stateful "
+                     "callbacks, non-transitive / non-symmetric comparisons, float64 map keys incl. NaN (one known finding: maps.Clear).", ref="7-C14", note=SEQ_NOTE, technique=TECH_CASES),
     "C15": dict(text="SortSearch.tla transcribes the sort adaptors (Less/Swap, sort.Reverse, stable insertion) and sort.Search; TLC checks permutation, "
                      "order, stability and lower-bound clauses for all key sequences in bounds; cells + seeded inputs past Go's algorithm thresholds "
-                     "run on the real helpers and are validated by TLC.", ref="7-C15", note=SEQ_NOTE, technique=TECH_CASES),
+                     "run on the real helpers and are validated by TLC; plus structured inputs, every search target up to length 25-69, 8-bit / float / "
+                     "string (NUL-suffixed) elements, and sorts of 2049-20001 elements checked through a lossless run encoding.", ref="7-C15", note=SEQ_NOTE, technique=TECH_CASES),
     "C20": dict(text="Num.tla defines the helpers over integers with fixed-width wrap and, for the wide types, over decimal digit sequences (Big.tla); "
                      "the real functions are run on all int8/uint8 pairs, on EVERY 8/16-bit (thorough: 32-bit) value through lossless run tables that TLC "
                      "proves equal to the piecewise definition, on boundary-dense 64-bit points and order-embedded float/string samples.",
